@@ -72,13 +72,6 @@ def helper(name, stmt_doc, entry):
             '{ unimplemented!() }\n' % (stmt_doc, name, entry))
 
 
-APPLY_ROW = Fn(IM + 'apply_along_row', level='A',
-               requires=['A.apply_along_row.pre:: wf(*old(self)) && row < old(self).nrows && forall|x: f64| f.requires((x,))'],
-               ensures=['A.apply_along_row.shape:: final(self).nrows == old(self).nrows && final(self).ncols == old(self).ncols && wf(*final(self))',
-                        'A.apply_along_row.row:: forall|j: int| 0 <= j < old(self).ncols ==> f.ensures((at2(old(self).data.v@, old(self).ncols as int, row as int, j),), #[trigger] at2(final(self).data.v@, old(self).ncols as int, row as int, j))',
-                        'A.apply_along_row.frame:: forall|r: int, c: int| 0 <= r < old(self).nrows && r != row && 0 <= c < old(self).ncols ==> #[trigger] at2(final(self).data.v@, old(self).ncols as int, r, c) == at2(old(self).data.v@, old(self).ncols as int, r, c)'])
-
-
 def bfn(name, sym, f, tr):
     E = lambda a, b: '%s(%s, %s)' % (f, a, b)
     spec = ''
